@@ -43,9 +43,11 @@ EXACT_TOL = 1e-9
 LEN_NOISE_M = 5e-8
 
 
-def ratio_tol(L):
-    """Relative tolerance for sums / shares of a segment of geodesic length L metres."""
-    return EXACT_TOL + (LEN_NOISE_M / L if L > 0 else 0.0)
+def ratio_tol(L, rep=None):
+    """Relative tolerance for sums / shares of a segment of geodesic length L metres. Values
+    given as float32 are only conserved to float32 precision (NumPy keeps float32 when such a
+    value is scaled by a Python float): 4 float32 epsilons."""
+    return EXACT_TOL + (LEN_NOISE_M / L if L > 0 else 0.0) + (4 * 1.1920929e-07 if rep == 'f32' else 0.0)
 # C04, antimeridian segment only: the property allows "the small excess caused by measuring
 # straight map-line pieces with great-circle lengths" without fixing the route across the
 # antimeridian; the largest such excess over every ordinary segment of the lattice is 3.97e-4
@@ -94,6 +96,24 @@ GRIDS = {
         unit=3000, lat=_rng(-270000, 270000, 1000), lon=_rng(-540000, 540000, 1000),
         win_lat=[120000, 121000, 122000, 123000, 124000], win_lon=[30000, 31000, 32000, 33000, 34000], am=True,
     ),
+    # NON-uniform global grid with the same extent and number of lines as 'deg1'
+    # (odd latitude lines 0.3 degree, every third longitude line 0.4 degree further on)
+    'warp1': dict(
+        lat=[-90000 + 1000 * k + (300 if k % 2 == 1 else 0) for k in range(181)],
+        lon=[-HALF + 1000 * k + (400 if k % 3 == 1 else 0) for k in range(361)],
+        win_lat=None, win_lon=None, am=True,
+    ),
+    # strongly non-uniform, again 181 x 361 lines from -90..90 / -180..180: 0.5-degree cells in a
+    # band (-45..44 / -90..89), one huge cell on either side
+    'band1': dict(
+        lat=[-90000] + [-45000 + 500 * k for k in range(179)] + [90000],
+        lon=[-HALF] + [-90000 + 500 * k for k in range(359)] + [HALF],
+        win_lat=None, win_lon=None, am=True,
+    ),
+    # strongly non-uniform regional grid with the extent and number of lines of 'irreg' / 'irregu'
+    'irreg2': dict(lat=[-1500, 1400, 1600, 1800, 2000], lon=[-2000, -1900, -1800, -1700, 2000], win_lat=None, win_lon=None, am=False),
+    # uniform regional grid with the same extent and number of lines as the non-uniform 'irreg'
+    'irregu': dict(lat=[-1500, -625, 250, 1125, 2000], lon=[-2000, -1000, 0, 1000, 2000], win_lat=None, win_lon=None, am=False),
 }  # fmt: skip
 ALT_GRID = [0.0, 1000.0, 3000.0, 6000.0, 12500.0]  # metres
 TIME_GRID = [1000.0, 1600.0, 2800.0, 4600.0]  # seconds
@@ -103,6 +123,11 @@ VGRIDS = {
     'std': (ALT_GRID, TIME_GRID),
     'even': ([float(x) for x in np.arange(0.0, 15000.0, 304.8)], [float(x) for x in np.arange(0.0, 10.0, 0.1)]),
 }
+# non-uniform lines with the same extent and number of lines as 'even'
+VGRIDS['warp'] = (
+    [x + (100.0 if 0 < k < len(VGRIDS['even'][0]) - 1 and k % 2 == 1 else 0.0) for k, x in enumerate(VGRIDS['even'][0])],
+    [x + (0.03 if 0 < k < len(VGRIDS['even'][1]) - 1 and k % 2 == 1 else 0.0) for k, x in enumerate(VGRIDS['even'][1])],
+)
 
 # per-point alphabets for the vertical / time axes: first grid value, interior of first cell,
 # interior line, interior of a middle cell, highest line
@@ -115,6 +140,7 @@ TIME_END = [1300.0, 4600.0]
 # 'z' contains zeros (a repeated point with value 0 must stay 0)
 VALS = {
     'p': [[3.0, 5.0, 7.0, 11.0, 13.0, 17.0, 19.0], [0.25, 1.0e6, 2.5, 40.0, 8.0, 0.5, 6.0], [1.0] * 7],
+    'i': [[3.0, 5.0, 7.0, 11.0, 13.0, 17.0, 19.0], [1.0, 1.0e6, 2.0, 40.0, 8.0, 1.0, 6.0], [1.0] * 7],  # whole numbers
     'z': [[0.0, 5.0, 0.0, 2.0, 0.0, 1.0, 0.0], [1.5, 0.0, 0.0, 1.0, 0.0, 0.0, 2.0], [0.0] * 7],
 }
 STATE = [[0.0, 1.0, 2.0, 3.0, 4.0, 5.0, 6.0, 7.0], [250.5, -3.0, 0.0, 1e-3, 9e9, 1.0, -1.0, 2.0]]  # state var 0 is the segment tag
@@ -286,9 +312,12 @@ def sublattices(tier, seed=0):
     subs.append(dict(name='varcount', axes={'path': len(hp), 'n_state': [0, 1, 2], 'n_integrated': [0, 1, 2, 3], 'values': ['p', 'z']}, cases=cs))
     subs += tiny_sublattices()
     subs += world_sublattices()
+    subs += edge_sublattices()
+    subs += representation_sublattices()
     subs += nano_sublattices()
     subs += even_grid_sublattices()
     subs += sequence_sublattices()
+    subs += two_grid_sublattices()
     # long histories: every 128th (1024th) case of everything above, gridded one after the other
     # in one process - what a long-lived worker would see, but self-contained and replayable
     flat = [c for s in subs for c in s['cases'] if 'seq' not in c]
@@ -327,6 +356,94 @@ def world_sublattices():
             axes={'ring_lon_mdeg': WORLD_RING, 'points': [2, 3, 4, 5, 6, 7], 'start': n, 'direction': ['east', 'west'], 'latitudes': ['varying', 'constant']},
         ))  # fmt: skip
     return subs
+
+
+# trajectory points exactly on the outer edge of a global grid: longitude +180 / -180 touched
+# (and left again on the same side, or crossed later / earlier), latitude +90 / -90
+def edge_sublattices():
+    subs = []
+    for gid, la in (('deg1', (40500, 41250, 41000)), ('half2', (-41250, -40750, -41000))):
+        P = [(la[0], 179500), (la[1], HALF), (la[2], 179250), (la[0], -179500), (la[1], -HALF), (la[2], -178750)]
+        cs = []
+        for k in (3, 4):
+            for pts in itertools.product(P, repeat=k):
+                if any(a == b for a, b in zip(pts[:-1], pts[1:])):
+                    continue
+                if sum(1 for a, b in zip(pts[:-1], pts[1:]) if abs(b[1] - a[1]) > HALF) > 1:
+                    continue  # more than one crossing is outside the property
+                cs.append(_case(gid, pts))
+        subs.append(dict(name=f'edge180:{gid}', axes={'points': P, 'length': [3, 4], 'filter': 'at most one |dlon| > 180'}, cases=cs))
+    N = [(90000, 10500), (90000, 40250), (89500, 10500), (89250, 12250)]
+    S = [(-90000, 10500), (-89500, 11500), (-90000, -20250), (-89000, -20250)]
+    cs = []
+    for Q in (N, S):
+        cs += [_case('deg1', (a, b)) for a in Q for b in Q]
+        cs += [_case('deg1', (a, b, c)) for a in Q for b in Q for c in Q if a != b and b != c]
+    subs.append(dict(name='edge90:deg1', axes={'north': N, 'south': S, 'length': [2, 3]}, cases=cs))
+    return subs
+
+
+# representation of the value arrays (integer dtypes, float32, plain lists, read-only and
+# strided arrays) wherever the unchanged code gives the float64 result
+def representation_sublattices():
+    paths = h_paths() + [('deg1', [(41500, 179500), (41500, -179500)]), ('deg1', [(40500, 90250), (41250, 179500), (40750, -179500), (42250, -90250)])]
+    cs = [_case(gid, pts, rep=r, ni=ni, ns=ns, vals='i') for gid, pts in paths for r in REPS for ni, ns in ((1, 1), (3, 2))]
+    return [dict(name='representation', axes={'path': len(paths), 'representation': REPS, 'variables': ['1 integrated + 1 state', '3 integrated + 2 state']}, cases=cs)]
+
+
+# strongly non-uniform vertical lines, same extent and number of lines as 'even'
+VGRIDS['band'] = (
+    [0.0] + [9000.0 + 10.0 * k for k in range(len(VGRIDS['even'][0]) - 2)] + [VGRIDS['even'][0][-1]],
+    [0.0] + [0.25 + 0.005 * k for k in range(len(VGRIDS['even'][1]) - 2)] + [VGRIDS['even'][1][-1]],
+)
+
+
+# two grids in one process, both orders: the same (bit-identical) trajectory on different
+# grids - uniform and non-uniform, including pairs that share extent and number of lines - and
+# different trajectories on the same grid; every call is compared with the oracle
+TWO_GRIDS = ['deg1', 'warp1', 'band1', 'half2', 'irreg', 'irregu', 'irreg2', 'tenth', 'third']
+COMMON_PATHS = [
+    [(-1000, -1000), (400, 600)],
+    [(250, -750), (250, 1250)],
+    [(-500, 0), (800, 0)],
+    [(400, 600), (400, 600), (1000, -1000)],
+    [(1900, 1900), (-1400, -1900), (0, 0)],
+    [(100, 100), (150, 120)],
+]
+
+
+def _on_grid(gid, pts, **kw):
+    f = grid_unit(gid) // MDEG
+    return _case(gid, [(a * f, b * f) for a, b in pts], **kw)
+
+
+def two_grid_sublattices():
+    cs = []
+    for i, t in enumerate(COMMON_PATHS):
+        other = COMMON_PATHS[(i + 1) % len(COMMON_PATHS)]
+        for g1, g2 in itertools.product(TWO_GRIDS, repeat=2):
+            cs.append(dict(seq=[_on_grid(g1, t), _on_grid(g2, t)], rel='same'))
+            cs.append(dict(seq=[_on_grid(g1, t), _on_grid(g2, other)], rel='same'))
+    for t in COMMON_PATHS[:3]:
+        for g1, g2 in itertools.permutations(TWO_GRIDS, 2):
+            cs.append(dict(seq=[_on_grid(g1, t), _on_grid(g2, t), _on_grid(g1, t)], rel='same'))
+    subs = [dict(name='two-grids', axes={'trajectory': len(COMMON_PATHS), 'first grid': TWO_GRIDS, 'second grid': TWO_GRIDS, 'second trajectory': ['same', 'next'], 'return to first grid': 'for 3 trajectories'}, cases=cs)]
+    ev = VGRIDS['even']
+    vals = [dict(alt=[ev[0][31], 500.0], time=[ev[1][3], 5.05]), dict(alt=[(ev[0][30] + ev[0][31]) / 2, 0.0], time=[(ev[1][3] + ev[1][4]) / 2, 0.0])]
+    cs = []
+    for v1, v2 in itertools.product(('even', 'warp', 'band', 'std'), repeat=2):
+        for a, b in itertools.product(vals, repeat=2):
+            c1 = _case('deg1', COMMON_PATHS[0], v='alt+time', vg=v1, **_clip_v(a, v1))
+            c2 = _case('deg1', COMMON_PATHS[0], v='alt+time', vg=v2, **_clip_v(b, v2))
+            cs.append(dict(seq=[c1, c2], rel='same'))
+    subs.append(dict(name='two-vertical-grids', axes={'first': ['even', 'warp', 'band', 'std'], 'second': ['even', 'warp', 'band', 'std'], 'values': 2}, cases=cs))
+    return subs
+
+
+def _clip_v(vals, vg):
+    """Altitude / time values moved into the extent of the vertical grid vg."""
+    al, ti = VGRIDS[vg]
+    return dict(alt=[min(max(x, al[0]), al[-1]) for x in vals['alt']], time=[min(max(x, ti[0]), ti[-1]) for x in vals['time']])
 
 
 # scale axis continued to the resolution of float64: points are given directly as float64
@@ -607,8 +724,35 @@ def case_params(case):
     return dict(
         gid=case['g'], pts=[tuple(p) for p in case['pts']], v=v, gaxes=case.get('gaxes', v),
         alt=case.get('alt'), time=case.get('time'), ns=case.get('ns', 1), ni=case.get('ni', 1), vals=case.get('vals', 'p'),
-        unit=case.get('u') or grid_unit(case['g']), vg=case.get('vg', 'std'),
+        unit=case.get('u') or grid_unit(case['g']), vg=case.get('vg', 'std'), rep=case.get('rep'),
     )  # fmt: skip
+
+
+REPS = ['i64', 'i32', 'f32', 'list', 'readonly', 'strided']
+
+
+def represent(values, how):
+    """The same numbers in another representation a caller may reasonably pass (the unchanged
+    code gives the float64 result for all of them)."""
+    a = np.array(values, dtype=float)
+    if how in (None, 'f64'):
+        return a
+    if how == 'i64':
+        return a.astype(np.int64)
+    if how == 'i32':
+        return a.astype(np.int32)
+    if how == 'f32':
+        return a.astype(np.float32)
+    if how == 'list':
+        return [int(x) if float(x).is_integer() else float(x) for x in values]
+    if how == 'readonly':
+        a.flags.writeable = False
+        return a
+    if how == 'strided':
+        big = np.full(2 * len(a), -7.0)
+        big[::2] = a
+        return big[::2]
+    raise ValueError(how)
 
 
 def run_impl(p, ns=None, ni=None, fresh=False):
@@ -625,15 +769,17 @@ def run_impl(p, ns=None, ni=None, fresh=False):
         lons = _rad([q[1] for q in p['pts']], p['unit'])
     alts = np.array(p['alt'], dtype=float) if p['v'] in ('alt', 'alt+time') else None
     times = np.array(p['time'], dtype=float) if p['v'] in ('time', 'alt+time') else None
-    sv = tuple(np.array(STATE[j][:n], dtype=float) for j in range(ns))
-    iv = tuple(np.array(VALS[p['vals']][j][: n - 1], dtype=float) for j in range(ni))
-    keep = [a.copy() for a in (lats, lons) + sv + iv]
+    # the representation axis applies to the integrated variables and to the (whole-numbered)
+    # state variable 0
+    sv = tuple(represent(STATE[j][:n], p['rep'] if j == 0 else None) for j in range(ns))
+    iv = tuple(represent(VALS[p['vals']][j][: n - 1], p['rep']) for j in range(ni))
+    keep = [np.array(a, dtype=float) for a in (lats, lons) + sv + iv]
     try:
         with np.errstate(all='ignore'):
             out = g.grid_trajectory(lats, lons, alts, times, sv, iv)
     except Exception as ex:  # classified by the caller
         return 'raise', ex
-    mutated = any(not np.array_equal(a, b, equal_nan=True) for a, b in zip(keep, (lats, lons) + sv + iv))
+    mutated = any(not np.array_equal(a, np.array(b, dtype=float), equal_nan=True) for a, b in zip(keep, (lats, lons) + sv + iv))
     return 'ok', dict(out=out, inputs_mutated=mutated)
 
 
@@ -731,9 +877,14 @@ def exact_segment(a, b, grid):
     if L == 0.0:
         # +180 -> -180 at one latitude (the same point written twice), or two distinct float64
         # positions whose geodesic distance underflows to exactly 0: a repeated point, which keeps
-        # its value once, in a cell touched by either of the two positions
-        la_ = tuple(sorted(set(_axis_cells(a[0], glat)) | set(_axis_cells(b[0], glat))))
-        lo_ = tuple(sorted(set(_axis_cells(a[1], glon, half)) | set(_axis_cells(b[1], glon, half))))
+        # its value once, in cells touched by the straight map line between the two positions
+        # (two longitudes at a pole are the same place, which lies in every longitude cell between)
+        la_, lo_ = set(), set()
+        for t0, t1 in zip([ts[0]] + ts, ts + [ts[-1]]):
+            tm = (t0 + t1) / 2
+            la_ |= set(_axis_cells(a[0] + tm * d0, glat))
+            lo_ |= set(_axis_cells(a[1] + tm * d1, glon, half))
+        la_, lo_ = tuple(sorted(la_)), tuple(sorted(lo_))
         return dict(zero=True, L=0.0, pieces=[dict(lat=la_, lon=lo_, raw=1.0, t0=0.0, t1=0.0, first=(a[0] == glat[0], a[1] == glon[0]))])
     pieces = []
     for i in range(len(ts) - 1):
@@ -1037,7 +1188,7 @@ def _run_maybe_seq(single, case, fresh=False):
         nontriv = nontriv or r['nontrivial']
         for v in r['violations']:
             v = dict(v)
-            v['detail'] = f'call {i + 1} of {n} in one process ({"a new" if fresh else "the same"} Gridder object per call): ' + v['detail']
+            v['detail'] = f'call {i + 1} of {n} in one process ({"a new Gridder object per call" if fresh else "one Gridder object per grid"}): ' + v['detail']
             vio.append(v)
     last = outs[-1] if 'sequence' not in outs[-1] else 'sequence'
     return {'outcome': f'sequence, last: {last}', 'nontrivial': nontriv, 'violations': vio}
@@ -1055,7 +1206,7 @@ def evaluate(case, force_vals=None, fresh=False):
     always carries >= 1 state and >= 1 integrated variable.
     """
     p = case_params(case)
-    if force_vals:
+    if force_vals and p['vals'] != 'i':
         p['vals'] = force_vals
     ns_m, ni_m = max(p['ns'], 1), max(p['ni'], 1)
     kind, res = run_impl(p, ns_m, ni_m, fresh)
